@@ -3,9 +3,11 @@ package c13
 import (
 	"context"
 	"fmt"
+	"github.com/libp2p/go-libp2p/core/protocol"
 	"math/rand"
 	"runtime"
 	"sort"
+	"strings"
 	"sync"
 	"sync/atomic"
 
@@ -66,6 +68,11 @@ type signOracle struct {
 // out into goroutines); its protocol handlers (serving honest members) run on delivery goroutines,
 // hence the lock.
 type adversary struct {
+	// protocol ids the faulty member uses for its own requests: the current ones, or another
+	// version's pair it discovered on the honest members' hosts (altProto)
+	sigProto, msgProto protocol.ID
+	altProto           bool
+
 	c     *kit.Case
 	rng   *rand.Rand
 	mon   *monitor
@@ -97,6 +104,7 @@ type sentMsg struct {
 
 func newAdversary(c *kit.Case, mon *monitor, salt uint64, peers []peer.ID) *adversary {
 	return &adversary{
+		sigProto: protoSig, msgProto: protoMsg,
 		c: c, rng: c.Rng, mon: mon, salt: salt, me: mon.adv, peers: peers,
 		sigs: map[poolKey][]byte{}, byMember: map[int][]poolEntry{}, oracles: map[int]*signOracle{},
 		signedFor: map[string]map[anyKey]bool{}, used: map[string]bool{}, counts: map[string]int64{},
@@ -164,7 +172,11 @@ func (a *adversary) signVia(w *world, requester int, id string, any *anypb.Any) 
 			o.comp.RegisterMessageIDFuncs(id,
 				func(context.Context, peer.ID, string, proto.Message) error { return nil },
 				func(context.Context, peer.ID, *anypb.Any) error { return nil })
-			raw, _ := o.net.Inject(a.peers[requester], a.peers[a.me], protoSig, &pb.BCastSigRequest{Id: id, Message: any})
+			sp := protoSig
+			if requester == a.me { // its own slot in its own messages: the version it speaks itself
+				sp = a.sigProto
+			}
+			raw, _ := o.net.Inject(a.peers[requester], a.peers[a.me], sp, &pb.BCastSigRequest{Id: id, Message: any})
 			resp := new(pb.BCastSigResponse)
 			if len(raw) > 0 && fakenet.Unframe(raw, resp) == nil && len(resp.GetSignature()) == 65 {
 				sig = resp.GetSignature()
@@ -302,7 +314,7 @@ func (a *adversary) subset(xs []int, nonEmpty bool) []int {
 // monitor records; no hash is computed here.
 func (a *adversary) sigReq(w *world, to int, id string, any *anypb.Any, tag, label string) bool {
 	mon := a.mon
-	raw, ok := w.net.Inject(mon.members[a.me].id, mon.members[to].id, protoSig, &pb.BCastSigRequest{Id: id, Message: any})
+	raw, ok := w.net.Inject(mon.members[a.me].id, mon.members[to].id, a.sigProto, &pb.BCastSigRequest{Id: id, Message: any})
 	if !ok {
 		a.noHandler.Store(true)
 		return false
@@ -347,7 +359,7 @@ func (a *adversary) sendMsg(w *world, to int, m fullMsg, label string) bool {
 	mon.curAny = keyOfAny(m.any)
 	mon.mu.Unlock()
 	before := mon.advDelivered(w, to)
-	_, ok := w.net.Inject(mon.members[a.me].id, mon.members[to].id, protoMsg, &pb.BCastMessage{Id: m.id, Message: m.any, Signatures: m.sigs})
+	_, ok := w.net.Inject(mon.members[a.me].id, mon.members[to].id, a.msgProto, &pb.BCastMessage{Id: m.id, Message: m.any, Signatures: m.sigs})
 	if !ok {
 		a.noHandler.Store(true)
 		return false
@@ -1340,4 +1352,39 @@ func (a *adversary) playReplay(w *world) {
 	s := cands[a.rng.Intn(len(cands))]
 	a.sendMsg(w, s.to, s.m, "replay-of-accepted-message")
 	a.sendMsg(w, a.honest()[a.rng.Intn(a.mon.n-1)], s.m, "replay-of-accepted-message")
+}
+
+// discoverProtocols looks at the stream protocols an honest member's host serves (a remote peer
+// learns them through identify). Any further "<prefix>/sig" + "<prefix>/msg" pair next to the
+// current one is another version of the broadcast protocol that the member accepts; in every second
+// case that has one, the faulty member runs its whole playbook through that version instead
+// (seeded change C13-r7: a still-accepted legacy version whose signatures bind neither message id
+// nor session).
+func (a *adversary) discoverProtocols(host *fakenet.Host) {
+	have := map[protocol.ID]bool{}
+	for _, p := range host.Protocols() {
+		have[p] = true
+	}
+	var alts []protocol.ID
+	for p := range have {
+		s := string(p)
+		if !strings.HasSuffix(s, "/sig") || p == protoSig {
+			continue
+		}
+		prefix := strings.TrimSuffix(s, "/sig")
+		if have[protocol.ID(prefix+"/msg")] {
+			alts = append(alts, protocol.ID(prefix))
+		}
+	}
+	sort.Slice(alts, func(i, j int) bool { return alts[i] < alts[j] })
+	a.c.R.Count("info_alternative_protocol_versions_served_by_members", int64(len(alts)))
+	for _, p := range alts {
+		a.c.R.Seen("alternative_protocol_versions", string(p))
+	}
+	if len(alts) == 0 || a.altProto || a.c.Idx%2 == 0 {
+		return
+	}
+	pick := alts[a.c.Idx/2%len(alts)]
+	a.sigProto, a.msgProto, a.altProto = protocol.ID(string(pick)+"/sig"), protocol.ID(string(pick)+"/msg"), true
+	a.c.R.Count("cases_adversary_used_alternative_protocol_version", 1)
 }
